@@ -57,7 +57,7 @@ theorem scalarGo_spec : ∀ (f pos : Nat) (rest : List Byte), rest.length ≤ f 
           apply run_start_ascii
           intro b hb
           rcases List.mem_cons.1 hb with rfl | hb
-          · bv_decide
+          · bv_decide (timeout := 300)
           · rw [hk, take_takeWhile_length] at hb
             simpa using mem_takeWhile_imp' _ _ b hb
         have hlen : (b0 :: r.take (skipAscii r)).length = 1 + skipAscii r := by
